@@ -331,3 +331,14 @@ Fixpoint prun (s : pstate) (evs : list pev) : pstate * list dynp :=
       let '(s2, ds2) := prun s1 r in
       (s2, ds1 ++ ds2)
   end.
+
+(* all the calldata items created along a run, in creation order *)
+Fixpoint pitems (s : pstate) (evs : list pev) : list item :=
+  match evs with
+  | [] => []
+  | ev :: r =>
+      match ev with
+      | EvCalldata c t => e_items (fst (fst (create c t (p_next s))))
+      | _ => []
+      end ++ pitems (fst (pstep s ev)) r
+  end.
